@@ -9,6 +9,7 @@ pub mod c04;
 pub mod c09;
 pub mod c10;
 pub mod c18;
+pub mod c19;
 pub mod c22;
 pub mod c_engine;
 pub mod c_fd;
@@ -33,6 +34,7 @@ pub fn dispatch(id: &str, ctx: &mut ev::Ctx) -> bool {
         "C16" => c_fd::run(ctx, "C16"),
         "C17" => c_fd::run(ctx, "C17"),
         "C18" => c18::run(ctx),
+        "C19" => c19::run(ctx),
         "C22" => c22::run(ctx),
         _ => return false,
     }
